@@ -407,5 +407,7 @@ fn pair_bfs(ctx: &mut Ctx, layout: usize, mode: HandleControl) {
     if g.capped {
         ctx.cap_hit("pair bfs", 50_000);
     }
-    ctx.expect(g.states.len() >= 512, "pair BFS reaches all 512 modifier states");
+    if !g.capped {
+        ctx.expect(g.states.len() >= 512, "pair BFS reaches all 512 modifier states");
+    }
 }
